@@ -128,13 +128,13 @@ Inductive Chain (bl : list nat) : nat -> nat -> Prop :=
 | C_step r m s : In r bl -> subject r = Some m -> Chain bl m s -> Chain bl r s.
 
 Lemma walk_spec bl g : forall fuel cur, cur < fuel ->
-  exists b, walk subject manifest bl g fuel cur = Some b /\
+  exists b, walk subject manifest true bl g fuel cur = Some b /\
             (b = true <-> exists s, Chain bl cur s /\ In s g /\ manifest s = true).
 Proof.
   induction fuel as [|f IH]; intros cur Hlt; [lia|]. simpl.
   destruct (memb cur bl) eqn:Eb.
   - apply memb_In in Eb. destruct (subject cur) as [s|] eqn:Es.
-    + destruct (memb s g && manifest s) eqn:Eg.
+    + cbn [negb orb]. destruct (memb s g && manifest s) eqn:Eg.
       * exists true. split; [reflexivity|]. split; [|reflexivity]. intros _.
         apply andb_true_iff in Eg as [Eg Em].
         exists s. split; [now apply C_one|split; [now apply memb_In|assumption]].
@@ -222,7 +222,7 @@ Qed.
 Lemma do_walk_fixed g n :
   exists b, do_walk subject manifest cfg_fixed bl g n = Some b /\
             (b = true <-> exists s, Chain bl n s /\ In s g /\ manifest s = true).
-Proof. unfold do_walk. cbn [fixF1 cfg_fixed]. apply walk_spec. lia. Qed.
+Proof. unfold do_walk. cbn [fixF1 fixSubjM cfg_fixed]. apply walk_spec. lia. Qed.
 
 (* one step of a pass *)
 Lemma keep_step_spec g kept ch n :
@@ -559,7 +559,7 @@ Qed.
 
 (* Store.heldBySurvivor *)
 Lemma held_spec g seen r :
-  held succ subject g seen r = true <-> exists p, In p g /\ holds p r /\ ~ In p seen.
+  held succ subject true g seen r = true <-> exists p, In p g /\ holds p r /\ ~ In p seen.
 Proof.
   unfold held, holds. rewrite existsb_exists. split.
   - intros (p & Hp & H). apply preds_In in Hp as [Hg Hs]. apply andb_true_iff in H as [H1 H2].
@@ -593,7 +593,7 @@ Proof.
       assert (Hh_b : memb h (blobs st) = true).
       { apply memb_In. apply (di_b _ _ _ _ _ I). split; assumption. }
       cbn [delete_loop]. unfold delete_one. rewrite Hh_b. rewrite (di_a _ _ _ _ _ I).
-      cbn [andb fixF3 fixF4 fixLeaf skipLinked fixHold cfg_fixed negb orb app].
+      cbn [andb fixF3 fixF4 fixLeaf skipLinked fixHold fixEntry cfg_fixed negb orb app].
       set (st' := {| blobs := removeb h (blobs st);
                      idx := filter (fun e => negb (snd e =? h)) (idx st);
                      gnodes := removeb h (gnodes st);
@@ -606,8 +606,8 @@ Proof.
       set (fresh := dedup (filter (fun y => negb (memb y seen)) (ord k dang'))).
       set (seen1 := seen ++ fresh).
       set (cand := dedup (filter (fun r => negb (memb r seen1)) (pending ++ ord k refs))).
-      set (ready := filter (fun r => negb (held succ subject (gnodes st') seen1 r)) cand).
-      set (rest := filter (held succ subject (gnodes st') seen1) cand).
+      set (ready := filter (fun r => negb (held succ subject true (gnodes st') seen1 r)) cand).
+      set (rest := filter (held succ subject true (gnodes st') seen1) cand).
       assert (Hg' : forall y, In y (gnodes st') <-> In y G /\ ~ In y (proc ++ [h])).
       { intro y. unfold st'. cbn [gnodes]. rewrite removeb_In, (di_g _ _ _ _ _ I), in_app_iff.
         simpl. split.
@@ -662,7 +662,7 @@ Proof.
                 In r cand /\ ~ exists p, In p (gnodes st') /\ holds p r /\ ~ In p seen1).
       { intro r. unfold ready. rewrite filter_In, negb_true_iff. split; intros [Hc Hh]; (split; [assumption|]).
         - intro E. apply held_spec in E. congruence.
-        - destruct (held succ subject (gnodes st') seen1 r) eqn:E; [|reflexivity].
+        - destruct (held succ subject true (gnodes st') seen1 r) eqn:E; [|reflexivity].
           apply held_spec in E. contradiction. }
       assert (Hrest : forall r, In r rest <->
                 In r cand /\ exists p, In p (gnodes st') /\ holds p r /\ ~ In p seen1).
@@ -722,7 +722,7 @@ Proof.
             - apply in_or_app. right. apply ord_perm. apply Hrefs. repeat split; try assumption.
               apply (di_g _ _ _ _ _ I). split; [assumption|]. intro Hp. apply Hrs. apply Hproc1.
               apply in_or_app. now left. }
-          destruct (held succ subject (gnodes st') seen1 r) eqn:E.
+          destruct (held succ subject true (gnodes st') seen1 r) eqn:E.
           + right. unfold rest. apply filter_In. split; assumption.
           + left. apply in_or_app. right. unfold ready. apply filter_In. split; [assumption|].
             now rewrite E.
@@ -1158,24 +1158,26 @@ End Proofs.
 Definition succ_w (n : nat) : list nat :=
   match n with
   | 1 => [0] | 2 => [1; 0] | 3 => [1; 2] | 4 => [2] | 5 => [0] | 6 => [1; 5] | 7 => [5; 0]
-  | 8 => [2; 0]
+  | 8 => [2; 0] | 10 => [0; 9] | 11 => [9; 0] | 12 => [2; 2]
   | _ => []
   end.
 Definition subject_w (n : nat) : option nat :=
-  match n with 2 => Some 1 | 3 => Some 1 | 6 => Some 1 | 7 => Some 5 | 8 => Some 2 | _ => None end.
-Definition manifest_w (n : nat) : bool := match n with 0 => false | _ => true end.
+  match n with 2 => Some 1 | 3 => Some 1 | 6 => Some 1 | 7 => Some 5 | 8 => Some 2 | 11 => Some 9 | 12 => Some 2
+  | _ => None end.
+Definition manifest_w (n : nat) : bool := match n with 0 | 9 => false | _ => true end.
 (* 0 blob; 1 image; 2 image with subject 1; 3 index with subject 1 listing 2;
    4 index listing 2; 5 image; 6 index with subject 1 listing 5; 7 image with subject 5;
-   8 image with subject 2 *)
+   8 image with subject 2; 9 layer; 10 image with layer 9; 11 image whose subject is the layer 9;
+   12 index with subject 2 that also lists 2 *)
 
 Lemma succ_w_lt : forall n s, In s (succ_w n) -> s < n.
 Proof.
-  intros n s. do 9 (destruct n as [|n]; [simpl; intuition lia|]). simpl. tauto.
+  intros n s. do 13 (destruct n as [|n]; [simpl; intuition lia|]). simpl. tauto.
 Qed.
 
 Lemma subj_w_succ : forall n s, subject_w n = Some s -> In s (succ_w n).
 Proof.
-  intros n s. do 9 (destruct n as [|n]; [simpl; intro H; try discriminate; injection H as <-; tauto|]).
+  intros n s. do 13 (destruct n as [|n]; [simpl; intro H; try discriminate; injection H as <-; tauto|]).
   simpl. discriminate.
 Qed.
 
@@ -1192,7 +1194,8 @@ Proof. vm_compute. reflexivity. Qed.
 
 (* F3: without the repair a tagged referrer is deleted together with its tag *)
 Definition cfg_noF3 := {| fixF1 := true; fixF3 := false; fixF4 := true; fixF13 := true;
-  fixStale := true; fixLeaf := true; skipLinked := false; fixHold := true |}.
+  fixStale := true; fixLeaf := true; skipLinked := false; fixHold := true;
+  fixSubjM := true; fixEntry := true |}.
 Lemma delete_noF3_removes_tagged :
   let st := run_w cfg_fixed [OPush 0; OPush 1; OPush 2; OTag 2 0] in
   let st' := fst (delete succ_w subject_w manifest_w cfg_noF3 ord_id st 1) in
@@ -1201,7 +1204,8 @@ Proof. vm_compute. intuition (try discriminate). Qed.
 
 (* F4: without the repair the outcome depends on the iteration order *)
 Definition cfg_noF4 := {| fixF1 := true; fixF3 := true; fixF4 := false; fixF13 := true;
-  fixStale := true; fixLeaf := true; skipLinked := false; fixHold := false |}.
+  fixStale := true; fixLeaf := true; skipLinked := false; fixHold := false;
+  fixSubjM := true; fixEntry := true |}.
 Definition ord_rev (k : nat) (l : list nat) : list nat := rev l.
 Lemma delete_noF4_order_dependent :
   let st := run_w cfg_fixed [OPush 0; OPush 1; OPush 2; OPush 3] in
@@ -1211,7 +1215,8 @@ Proof. vm_compute. split; reflexivity. Qed.
 
 (* F13: a single referrer pass keeps 7 or sweeps it depending on the order *)
 Definition cfg_noF13 := {| fixF1 := true; fixF3 := true; fixF4 := true; fixF13 := false;
-  fixStale := true; fixLeaf := true; skipLinked := false; fixHold := true |}.
+  fixStale := true; fixLeaf := true; skipLinked := false; fixHold := true;
+  fixSubjM := true; fixEntry := true |}.
 Lemma gc_noF13_order_dependent :
   let st := run_w cfg_fixed [OPush 0; OPush 1; OPush 5; OPush 6; OPush 7; OTag 1 0] in
   In 7 (blobs (fst (gc succ_w subject_w manifest_w cfg_noF13 false (fun _ => [6; 7; 5]) st))) /\
@@ -1227,7 +1232,8 @@ Qed.
 (* before the repair of Delete's referrer rule: the referrer 2 of the deleted manifest 1 is
    removed although the surviving tagged index 4 lists it (repaired: 2 stays) *)
 Definition cfg_noHold := {| fixF1 := true; fixF3 := true; fixF4 := true; fixF13 := true;
-  fixStale := true; fixLeaf := true; skipLinked := false; fixHold := false |}.
+  fixStale := true; fixLeaf := true; skipLinked := false; fixHold := false;
+  fixSubjM := true; fixEntry := true |}.
 Lemma delete_referrer_still_linked :
   let st := run_w cfg_fixed [OPush 0; OPush 1; OPush 2; OPush 4; OTag 4 0] in
   let st' := fst (delete succ_w subject_w manifest_w cfg_noHold ord_id st 1) in
@@ -1240,7 +1246,8 @@ Proof. vm_compute. intuition discriminate. Qed.
 (* pre-repair resolver.Memory.Tag: tag 0 is moved from 5 to 1; deleting the index 6 that
    lists 5 leaves 5 behind because its tag set still holds the moved reference *)
 Definition cfg_noStale := {| fixF1 := true; fixF3 := true; fixF4 := true; fixF13 := true;
-  fixStale := false; fixLeaf := true; skipLinked := false; fixHold := true |}.
+  fixStale := false; fixLeaf := true; skipLinked := false; fixHold := true;
+  fixSubjM := true; fixEntry := true |}.
 Definition stale_ops := [OPush 0; OPush 5; OPush 6; OPush 1; OTag 5 0; OTag 1 0].
 Lemma delete_stale_tag_leaves_garbage :
   let st := run_w cfg_noStale stale_ops in
@@ -1260,7 +1267,8 @@ Qed.
 (* pre-repair Delete: after GC the never-stored config 0 of the tagged image 1 is a graph
    node; deleting 1 queues it and aborts with not found *)
 Definition cfg_noLeaf := {| fixF1 := true; fixF3 := true; fixF4 := true; fixF13 := true;
-  fixStale := true; fixLeaf := false; skipLinked := false; fixHold := true |}.
+  fixStale := true; fixLeaf := false; skipLinked := false; fixHold := true;
+  fixSubjM := true; fixEntry := true |}.
 Definition leaf_ops := [OPush 1; OTag 1 0; OGC].
 Lemma delete_absent_leaf_aborts :
   let st := run_w cfg_noLeaf leaf_ops in
@@ -1273,13 +1281,39 @@ Proof. vm_compute. intuition discriminate. Qed.
    predecessors are already queued -- breaks referrer chains: 2 (referrer of 1) is held by
    its own referrer 8, so deleting 1 leaves 2 and 8 behind as garbage nobody else links to *)
 Definition cfg_skipLinked := {| fixF1 := true; fixF3 := true; fixF4 := true; fixF13 := true;
-  fixStale := true; fixLeaf := true; skipLinked := true; fixHold := false |}.
+  fixStale := true; fixLeaf := true; skipLinked := true; fixHold := false;
+  fixSubjM := true; fixEntry := true |}.
 Lemma delete_skip_linked_leaves_chain :
   let st := run_w cfg_fixed [OPush 0; OPush 1; OPush 2; OPush 8] in
   blobs (fst (delete succ_w subject_w manifest_w cfg_skipLinked ord_id st 1)) = [8; 2; 0] /\
   blobs (fst (delete succ_w subject_w manifest_w cfg_fixed ord_id st 1)) = [] /\
   is_tagged st 2 = false /\ is_tagged st 8 = false.
 Proof. vm_compute. repeat split. Qed.
+
+(* audit F-A, before the repair of gcIndex: the layer 9 is never pushed; IndexAll records it
+   as a node of the rebuilt graph while indexing the tagged image 10, and 11, whose subject is
+   that layer, is kept by GC as garbage (repaired: swept) *)
+Definition cfg_noSubjM := {| fixF1 := true; fixF3 := true; fixF4 := true; fixF13 := true;
+  fixStale := true; fixLeaf := false; skipLinked := false; fixHold := true;
+  fixSubjM := false; fixEntry := true |}.
+Definition subjm_ops := [OPush 0; OPush 10; OTag 10 0; OPush 11].
+Lemma gc_blob_subject_keeps_garbage :
+  blobs (fst (step succ_w subject_w manifest_w cfg_noSubjM false (run_w cfg_noSubjM subjm_ops) OGC)) = [11; 10; 0] /\
+  blobs (fst (step succ_w subject_w manifest_w cfg_fixed false (run_w cfg_fixed subjm_ops) OGC)) = [10; 0] /\
+  manifest_w 9 = false /\ subject_w 11 = Some 9.
+Proof. vm_compute. repeat split. Qed.
+
+(* audit F-C, before the repair of heldBySurvivor: the tagged index 12 names 2 as its subject
+   and also lists it; deleting 1 removed its referrer 2 (repaired: 12 holds 2) *)
+Definition cfg_noEntry := {| fixF1 := true; fixF3 := true; fixF4 := true; fixF13 := true;
+  fixStale := true; fixLeaf := true; skipLinked := false; fixHold := true;
+  fixSubjM := true; fixEntry := false |}.
+Lemma delete_subject_and_entry :
+  let st := run_w cfg_fixed [OPush 0; OPush 1; OPush 2; OPush 12; OTag 12 0] in
+  blobs (fst (delete succ_w subject_w manifest_w cfg_noEntry ord_id st 1)) = [12] /\
+  blobs (fst (delete succ_w subject_w manifest_w cfg_fixed ord_id st 1)) = [12; 2; 0] /\
+  In 2 (entries succ_w subject_w 12).
+Proof. vm_compute. repeat split. now left. Qed.
 
 (* the hypotheses of the theorems are satisfiable on a non-trivial history *)
 Lemma example_gc :
